@@ -401,6 +401,14 @@ Theorem c18_pool_put_nil_noop : forall limit maxage s t, POOL.t_pc (POOL.ts s t)
 Proof. exact pool_put_nil_noop. Qed.
 Print Assumptions c18_pool_put_nil_noop.
 
+(* ---------------------------------------------------------------- Barrier.Guard / syncx.Guard with a panicking function *)
+Theorem c18_barrier_panic_releases : forall s t,
+  (BAR.t_pc (BAR.ts s t) = BAR.FnE -> gate_open (BAR.open s) (BAR.t_gate (BAR.ts s t)) = true ->
+     exists s', BAR.step (Thr t) s = Some s' /\ BAR.t_pc (BAR.ts s' t) = BAR.BUnlock /\ BAR.lock s' = BAR.lock s) /\
+  (BAR.t_pc (BAR.ts s t) = BAR.BUnlock -> exists s', BAR.step (Thr t) s = Some s' /\ BAR.lock s' = None /\ BAR.t_pc (BAR.ts s' t) = BAR.Idle).
+Proof. exact bar_panic_releases. Qed.
+Print Assumptions c18_barrier_panic_releases.
+
 (* ---------------------------------------------------------------- ManagedResource *)
 (* the current resource is always the latest one generated (generate runs only when there is none, so
    a freshly generated resource that nobody reported is never discarded and never regenerated); the
